@@ -204,9 +204,12 @@ class Worker(courier_utils.CourierClient):
         self._worker_pool = worker_pool
       return self._worker_pool is worker_pool
 
-  def release(self):
-    """Releases the worker."""
+  def release(self, worker_pool: WorkerPool | None = None):
+    """Releases the worker, if given, only when it is available to the pool."""
     with self._states_lock:
+      # Checked under the lock: another pool can acquire the worker in between.
+      if worker_pool is not None and not self.is_available(worker_pool):
+        return
       if self._lock.locked():
         self._lock.release()
       self._worker_pool = None
@@ -281,8 +284,7 @@ class WorkerPool:
   def release_all(self, workers: Iterable[Worker] = ()):
     workers = workers or self._workers
     for worker in workers:
-      if worker.is_available(self):
-        worker.release()
+      worker.release(self)
 
   def wait_until_alive(
       self,
